@@ -614,6 +614,78 @@ def nested_failure_ties(rng, count):
     return out
 
 
+def windowed_critical_abort(rng, count):
+    """C04/C07/C05: a critical scheduler with a window; a critical job raises while other
+    critical jobs are still queued for a slot: the exception that comes out is the culprit's"""
+    out = []
+    while len(out) < count:
+        w = rng.choice([1, 1, 2, 3])
+        k = w + rng.randint(1, 4)
+        t = rng.choice([1, 2])
+        nested = rng.random() < 0.5
+        body = S([J() for _ in range(k)])
+        shape = tree(S([J(), body, J(1)])) if nested else tree(body)
+        kind, parent, _ = shape
+        n = len(kind)
+        holder = [i for i in range(n) if kind[i] == "sched"][-1]
+        mem = [i for i in range(n) if parent[i] == holder + 1]
+        dur = [rng.choice([t + 1, t + 2, t + 3]) if kind[i] == "job" else 0 for i in range(n)]
+        outc, crit, win = ["ok"] * n, [False] * n, [0] * n
+        for i in mem:
+            crit[i] = rng.random() < 0.8
+        bomb = rng.choice(mem)
+        dur[bomb], outc[bomb], crit[bomb] = t, "exc", True
+        win[holder] = w
+        for s in range(n):
+            if kind[s] == "sched":
+                crit[s] = True
+        sc = _mk(rng, shape, dur=dur, out=outc, crit=crit, win=win, pure=False,
+                 cdur=[rng.choice([0, 0, 1]) for _ in range(n)])
+        out.append(sc)
+    return out
+
+
+def late_shutdown_bounds(rng, count):
+    """C03/C13: a nested scheduler without shutdown_timeout holds a handler that never returns;
+    it never ends by itself (its parent aborts first, or it never starts), so it is shut down
+    by its parent, within the parent's shutdown_timeout: the run ends although the tree is
+    outside the letter of C03's hypothesis"""
+    out = []
+    while len(out) < count:
+        t = rng.choice([1, 2])
+        by_timeout = rng.random() < 0.4
+        deep = rng.random() < 0.3
+        inner = S([J(), J()] + ([J(0)] if rng.random() < 0.4 else []))
+        nested = S([inner, J()]) if deep else inner
+        behind = rng.random() < 0.3
+        kids = [J(), S(nested[1], 0) if behind else nested, J()]
+        shape = tree(S(kids))
+        kind, parent, _ = shape
+        n = len(kind)
+        scheds = [i for i in range(n) if kind[i] == "sched"]
+        innermost = scheds[-1]
+        mem = [i for i in range(n) if parent[i] == innermost + 1]
+        top_jobs = [i for i in range(n) if kind[i] == "job" and parent[i] == 1]
+        dur = [rng.choice([0, 1, t + 2, t + 3]) if kind[i] == "job" else 0 for i in range(n)]
+        dur[mem[-1]] = t + 3                        # the nested run is not over when the parent aborts
+        outc, crit, tmo, stmo, sdur = ["ok"] * n, [False] * n, [-1] * n, [1] * n, [0] * n
+        stmo[innermost] = -1
+        stmo[0] = rng.choice([0, 1, 2])
+        sdur[mem[0]] = -1
+        for i in mem[1:]:
+            sdur[i] = rng.choice([0, 1, 3])
+        if by_timeout:
+            tmo[0] = t
+        else:
+            dur[top_jobs[0]], outc[top_jobs[0]], crit[top_jobs[0]] = t, "exc", True
+            if behind:
+                dur[top_jobs[0]] = t + 1 if rng.random() < 0.5 else t
+        sc = _mk(rng, shape, dur=dur, out=outc, crit=crit, tmo=tmo, stmo=stmo, sdur=sdur,
+                 cdur=[rng.choice([0, 0, 1]) for _ in range(n)], pure=rng.random() < 0.3)
+        out.append(sc)
+    return out
+
+
 def failed_nested_successors(rng, count):
     """C03/C10/C01: a non-critical nested scheduler fails (a critical job inside raises,
     or its own timeout fires) and jobs of the parent are waiting behind it"""
@@ -779,8 +851,9 @@ STRUCTURED = {
     "C01": [(joins, 0.25), (small_perms, 0.1), (nested_gap, 0.15), (between_waits, 0.08)],
     "C02": [(tie_groups, 0.3), (simultaneous_failures, 0.15)],
     "C03": [(window_failures, 0.25), (deadlines, 0.1), (window_ties, 0.12), (failed_nested_successors, 0.1),
-            (cancel_cliques, 0.08), (empty_stages, 0.06), (outside_hypothesis, 0.04)],
-    "C04": [(critical_instants, 0.15), (deadlines, 0.2), (crit_chains, 0.15), (simultaneous_failures, 0.15)],
+            (cancel_cliques, 0.08), (empty_stages, 0.06), (outside_hypothesis, 0.04), (late_shutdown_bounds, 0.04)],
+    "C04": [(critical_instants, 0.15), (deadlines, 0.2), (crit_chains, 0.15), (simultaneous_failures, 0.15),
+            (windowed_critical_abort, 0.05)],
     "C05": [(critical_instants, 0.3), (simultaneous_failures, 0.15), (nested_abort_ties, 0.1), (between_waits, 0.06),
             (nested_failure_ties, 0.05)],
     "C06": [(window_failures, 0.3), (simultaneous_failures, 0.1)],
@@ -793,7 +866,7 @@ STRUCTURED = {
     "C11": [(shutdown_grid, 0.3), (deadlines, 0.15), (nested_gap, 0.1), (nested_abort_ties, 0.1), (between_waits, 0.06),
             (cancel_cliques, 0.05)],
     "C12": [(joins, 0.15), (small_perms, 0.15), (tie_groups, 0.15), (window_ties, 0.25)],
-    "C13": [(shutdown_grid, 0.5)],
+    "C13": [(shutdown_grid, 0.45), (late_shutdown_bounds, 0.05)],
     "C14": [(window_failures, 0.15), (critical_instants, 0.1), (window_ties, 0.15)],
 }
 
